@@ -150,6 +150,22 @@ func MakeAccounts(r *rand.Rand, n int, o Opts) []string {
 		}
 		add(mk(pick(r, TypeNames)))
 	}
+	if o.CaseTwins && len(res) > 0 {
+		// a sibling that differs from an existing account only in the case of its last segment
+		base := pick(r, res)
+		segs := strings.Split(base, ":")
+		if len(segs) >= 2 {
+			last := segs[len(segs)-1]
+			tw := strings.ToLower(last)
+			if tw == last {
+				tw = strings.ToUpper(last)
+			}
+			if tw != last {
+				segs[len(segs)-1] = tw
+				add(strings.Join(segs, ":"))
+			}
+		}
+	}
 	return res
 }
 
